@@ -35,6 +35,9 @@ CHECKS = {
     "C17": dict(level="other", engine="fwsym+pysym", technique="symbolic execution of the emitted LCD helper calls (IR, mock display records every put) vs the real host LCD (pysym); cell matrices compared per path; progress arithmetic decided by SMT against an integer reference",
                 text="bounded differential of LCD cell matrices (run-time column/row, enumerated geometry/length/alignment/clear) plus solver-decided progress-bar arithmetic on device and host and backlight/glyph traces",
                 note="texts are literals; geometries enumerated (see evidence bounds); host block glyph = device 0xFF"),
+    "C18": dict(level="other", engine="fwsym+pysym", technique="symbolic execution of the emitted start/tick templates over N passes with a symbolic clock; per-path SMT claims (no delay, row confinement, step bound, rate limit); host animate/tick by pysym with symbolic timestamps",
+                text="bounded symbolic check of all four animation styles on device (IR) and host (real LCD.tick): never blocks, stays in its row, terminates within the linear bound unless looping, honours speed_ms over all tick time sequences",
+                note="texts/geometries enumerated; termination checked with speed 0 over bound+2 passes; rate limit with speed 150 over 4 passes"),
     "C19": dict(level="other", engine="pysym", technique="symbolic execution of the real Python (z3 proxies) + SMT (QF_BV/QF_FP), inductive step",
                 text="bounded symbolic inductive step per class: object state symbolic under the representation invariant, one real method call with symbolic arguments, postconditions decided by z3/cvc5 on every feasible path; obligations the solvers do not decide are reported inconclusive",
                 note="trusted: z3/cvc5, proxy semantics (validated by stock-CPython replay of every counterexample), stated representation invariants; ints |v|<=2^31, finite doubles"),
